@@ -2,7 +2,9 @@
    exec (row filter, nested dimensions with CopyQuery), ExecGroupBy / ExecHaving, aggregate
    evaluation (functions.go Sum/Avg/Min/Max/Count), ExecSelect, ExecDistinct, ExecOrderBy
    (sort.go), the LIMIT/OFFSET window, BuildUnion, BuildCte, derived tables, row-scoped
-   subqueries and EXISTS.  Definitions only. *)
+   subqueries and EXISTS — including what a subquery finds behind the back reference `<-`: the data
+   map of the enclosing query, which still holds that query's CTE thunks ([c_up], [up_find]).
+   Definitions only. *)
 From Coq Require Import Floats.
 From GenqlV Require Import Base.Prelude Base.Fmt Base.Value Model.Ast Model.Like Model.Num Model.Eval.
 Local Open Scope Z_scope.
@@ -238,10 +240,29 @@ Definition is_agg_item {Q} (it : sel_item Q) : bool :=
 Definition all_aggregate {Q} (items : list (sel_item Q)) : bool :=
   match items with [] => false | _ => forallb is_agg_item items end.
 
+(* an enclosing query as a row-scoped subquery sees it through the back reference `<-`: its data
+   map, the CTE thunks registered in that map, and which of them are being evaluated *)
+Definition frame := (row * list (string * stmt) * list string)%type.
+Definition fr_data (f : frame) : row := fst (fst f).
+Definition fr_ctes (f : frame) : list (string * stmt) := snd (fst f).
+Definition fr_busy (f : frame) : list string := snd f.
+
 Record qctx := {
   c_data : row;                         (* query.data *)
   c_ctes : list (string * stmt);        (* CTE thunks registered in query.data *)
-  c_busy : list string                  (* CTEs being evaluated (in-progress guard) *)
+  c_busy : list string;                 (* CTEs being evaluated (in-progress guard) *)
+  c_up : list frame                     (* the enclosing queries, innermost first: what the `<-` key of
+                                           c_data, the `<-` key of that map, ... point at, together
+                                           with the thunks those maps hold *)
+}.
+
+(* a thunk found in the data map of an enclosing query while a path is read *)
+Record up_hit := {
+  uh_frame : frame;                     (* the enclosing query that registered it *)
+  uh_up : list frame;                   (* the queries enclosing that one *)
+  uh_name : string;
+  uh_body : stmt;
+  uh_rest : list string                 (* the selectors that follow the name *)
 }.
 
 (* selector.go Mix / MixArray: flatten every level of nesting *)
@@ -276,7 +297,11 @@ Section Run.
   Variable join : jointype -> jstrategy -> list value -> list value -> string -> string ->
                   expr stmt -> row -> res (list value).
 
-  Definition sub_ctx (cur : row) : qctx := {| c_data := cur; c_ctes := []; c_busy := [] |}.
+  (* Prepare(Scope(current, query.data), ...): the subquery's data is the scope copy of the row (its
+     `<-` key is the enclosing query's data map, which still holds the CTE thunks) *)
+  Definition sub_ctx (parent : qctx) (cur : row) : qctx :=
+    {| c_data := cur; c_ctes := []; c_busy := [];
+       c_up := (c_data parent, c_ctes parent, c_busy parent) :: c_up parent |}.
 
   Definition from_ident (f : from_clause stmt) : string :=
     match f with
@@ -288,6 +313,27 @@ Section Run.
 
   Definition cte_lookup (name : string) (ctes : list (string * stmt)) : option stmt :=
     match find (fun c => String.eqb (fst c) name) ctes with Some c => Some (snd c) | None => None end.
+
+  (* Reader walking [path] through the data maps of the enclosing queries: [up] are the maps the
+     successive `<-` keys point at.  A key that holds a thunk stops the walk (the thunk shadows a
+     document entry of the same name: BuildCte overwrites the key in its copy of the map); the key
+     `<-` moves one query up; anything else is plain data *)
+  Fixpoint up_find (up : list frame) (path : list string) {struct up} : option up_hit :=
+    match up, path with
+    | fr :: up', k :: rest =>
+        match cte_lookup k (fr_ctes fr) with
+        | Some body => Some {| uh_frame := fr; uh_up := up'; uh_name := k; uh_body := body; uh_rest := rest |}
+        | None => if String.eqb k "<-" then up_find up' rest else None
+        end
+    | _, _ => None
+    end.
+
+  (* does [path], read in the data of [ctx], run into a thunk of an enclosing query? *)
+  Definition up_read (ctx : qctx) (path : list string) : option up_hit :=
+    match path with
+    | k :: rest => if String.eqb k "<-" then up_find (c_up ctx) rest else None
+    | [] => None
+    end.
 
   (* BuildFrom / BuildFromAliasedTable / BuildJoin: the source rows; [None] = dual *)
   Fixpoint build_from (ctx : qctx) (f : from_clause stmt) : res (option (list value)) :=
@@ -301,26 +347,46 @@ Section Run.
             | Some body =>
                 if existsb (String.eqb k) (c_busy ctx) then Err   (* recursive reference *)
                 else
-                  let! rs := rec {| c_data := c_data ctx; c_ctes := c_ctes ctx; c_busy := k :: c_busy ctx |}
+                  let! rs := rec {| c_data := c_data ctx; c_ctes := c_ctes ctx; c_busy := k :: c_busy ctx;
+                                    c_up := c_up ctx |}
                                  (JStmt body) in
                   let! v := reader rest rs in
                   let! arr := as_array v in
                   Ok (Some (process_alias arr alias))
             | None =>
-                let! v := reader path (VObj (c_data ctx)) in
-                match v with
-                | VNull => Ok (Some [])          (* unknown table: empty source *)
-                | _ => let! arr := as_array v in Ok (Some (process_alias arr alias))
+                match up_read ctx path with
+                | Some h =>
+                    (* `<-`. ... .name: the thunk of an enclosing query, evaluated by that query
+                       (its data map, its thunks, its in-progress marks) *)
+                    let fr := uh_frame h in
+                    if existsb (String.eqb (uh_name h)) (fr_busy fr) then Err   (* recursive reference *)
+                    else
+                      let! rs := rec {| c_data := fr_data fr; c_ctes := fr_ctes fr;
+                                        c_busy := uh_name h :: fr_busy fr; c_up := uh_up h |}
+                                     (JStmt (uh_body h)) in
+                      let! v := reader (uh_rest h) rs in
+                      let! arr := as_array v in
+                      Ok (Some (process_alias arr alias))
+                | None =>
+                    let! v := reader path (VObj (c_data ctx)) in
+                    match v with
+                    | VNull => Ok (Some [])          (* unknown table: empty source *)
+                    | _ => let! arr := as_array v in Ok (Some (process_alias arr alias))
+                    end
                 end
             end
         end
     | FTableFn fn path alias =>
         (* ReaderExecutor: read the path, then apply the registered top-level function *)
-        let! v := reader path (VObj (c_data ctx)) in
-        let! w := top_level_fn fn v in
-        match w with
-        | VNull => Ok (Some [])
-        | _ => let! arr := as_array w in Ok (Some (process_alias arr alias))
+        match up_read ctx path with
+        | Some _ => OutOfModel         (* a function applied to a thunk of an enclosing query *)
+        | None =>
+            let! v := reader path (VObj (c_data ctx)) in
+            let! w := top_level_fn fn v in
+            match w with
+            | VNull => Ok (Some [])
+            | _ => let! arr := as_array w in Ok (Some (process_alias arr alias))
+            end
         end
     | FDerived q alias =>
         let! v := rec ctx (JStmt q) in
@@ -340,11 +406,11 @@ Section Run.
   (* the environment expression evaluation sees while query [s] runs over [filtered] rows *)
   Definition mk_env (ctx : qctx) (s : select stmt) (filtered : list value) : env stmt :=
     {| e_data := VObj (c_data ctx);
-       e_sub := fun q cur => rec (sub_ctx cur) (JStmt q);
+       e_sub := fun q cur => rec (sub_ctx ctx cur) (JStmt q);
        e_exists := fun q cur =>
          match q with
          | SSelect s' =>
-             let cctx := sub_ctx cur in
+             let cctx := sub_ctx ctx cur in
              let! src := build_from cctx (s_from s') in
              match src with
              | None => OutOfModel
@@ -442,7 +508,7 @@ Section Run.
     end.
 
   Definition register_ctes (ctx : qctx) (w : list (string * stmt)) : qctx :=
-    {| c_data := c_data ctx; c_ctes := rev w ++ c_ctes ctx; c_busy := c_busy ctx |}.
+    {| c_data := c_data ctx; c_ctes := rev w ++ c_ctes ctx; c_busy := c_busy ctx; c_up := c_up ctx |}.
 
   Definition union_select (all : bool) (limit offset : option Z) : select stmt :=
     {| s_with := []; s_from := FDual; s_where := None; s_group := []; s_having := None;
@@ -483,7 +549,7 @@ Section Top.
   Definition api_run (fuel : nat) (wrapped : bool) (doc : value) (q : stmt) : res (list value) :=
     let data := if wrapped then [("root"%string, doc)] else
                   match doc with VObj kv => kv | _ => [] end in
-    let! v := catch_panic (exec fuel {| c_data := data; c_ctes := []; c_busy := [] |} (JStmt q)) in
+    let! v := catch_panic (exec fuel {| c_data := data; c_ctes := []; c_busy := []; c_up := [] |} (JStmt q)) in
     match v with
     | VArr l => Ok l
     | _ => Ok [v]
